@@ -26,6 +26,7 @@ type Case struct {
 	NoKeep    bool          `json:"disable_keep_alives"`
 	Instances int           `json:"instances"`
 	Passes    int           `json:"passes"`
+	Preload   bool          `json:"preload,omitempty"`
 	Text      string        `json:"file_preview,omitempty"`
 }
 
@@ -81,6 +82,9 @@ func runCase(res *vkit.Result, c Case) {
 	keyp := fmt.Sprintf("C09/%s/%s", c.File.Format, c.Gun)
 	fail := func(check, f string, a ...any) { res.Violate(keyp+"/"+check, fmt.Sprintf(f, a...), c) }
 	ammo := map[string]any{"type": typeName[c.File.Format], "file": path, "passes": c.Passes}
+	if c.Preload {
+		ammo["preload"] = true
+	}
 	if len(c.Conf) > 0 {
 		ammo["headers"] = vkit.ConfHeaders(c.Conf)
 	}
@@ -224,6 +228,13 @@ func gen(rng *rand.Rand, i int) Case {
 	formats := []string{"uri", "uripost", "raw", "jsonline"}
 	c := Case{File: vkit.GenAmmoFile(rng, formats[i%4], 6, 1), Gun: "http", Instances: 1 + rng.Intn(8), Passes: 1 + rng.Intn(2)}
 	if rng.Intn(3) == 0 {
+		// preloaded ammo is handed out again on every pass: with more instances than entries
+		// the same entry is in the hands of several instances at once
+		c.Preload = true
+		c.Passes = 2 + rng.Intn(3)
+		c.Instances = 4 + rng.Intn(8)
+	}
+	if rng.Intn(3) == 0 {
 		c.Gun = "connect"
 	}
 	c.SSL = c.Gun == "http" && rng.Intn(3) == 0
@@ -284,7 +295,7 @@ func seeds() []Case {
 
 func main() {
 	vkit.Fs()
-	res := vkit.NewResult("pools decoded from config maps: ammo in uri/uripost/raw/http-json (1–6 entries, unique ?vid markers, header sets incl. Host) × `headers` option lists colliding with ammo headers in the same and in different letter case (incl. Host) × gun {http, connect} × ssl × disable-keep-alives × 1–8 instances × 1–2 passes, fired at an in-process recording HTTP(S) target that also serves CONNECT tunnels and answers in six shapes (fixed length, empty, chunked, long without declared length, 204, 404); distinct = distinct (file, option list, gun settings); non-trivial = ≥ 2 requests received")
+	res := vkit.NewResult("pools decoded from config maps: ammo in uri/uripost/raw/http-json (1–6 entries, unique ?vid markers, header sets incl. Host) × `headers` option lists colliding with ammo headers in the same and in different letter case (incl. Host) × gun {http, connect} × ssl × disable-keep-alives × 1–11 instances × 1–4 passes × preload on/off, fired at an in-process recording HTTP(S) target that also serves CONNECT tunnels and answers in six shapes (fixed length, empty, chunked, long without declared length, 204, 404); distinct = distinct (file, option list, gun settings); non-trivial = ≥ 2 requests received")
 	var err error
 	for _, tls := range []bool{false, true} {
 		targets[tls], err = vkit.NewHTTPTarget(tls)
